@@ -155,6 +155,12 @@ def work(chunk):
                         if len(REC) != 1 or REC[0][3].get("scale") != v or type(REC[0][3].get("scale")) is not type(v):
                             viol(call, "red_kw", f"history scale={list(h[:n + 1])}: function received {REC[0][3] if REC else None}, expected scale={v!r} verbatim"); break
                     hist["histories"] += 1
+                # the first adapter again, after other adapted functions have been compiled in between (cache hit): same result, same function
+                REC.clear()
+                again = outcome(lambda: A["red"](call.desc, x.copy(), **sizes))
+                hist["evaluations"] += 1
+                if again[0] != "value" or not calls.same_value(call, again[1], got[1]) or [r[0] for r in REC] != ["red"]:
+                    viol(call, "red", f"repeating the call after other adapted functions were compiled gives {again[0]} {np.asarray(again[1]).ravel()[:4].tolist() if again[0] == 'value' else again[1]} (functions invoked: {[r[0] for r in REC]}), first result {np.asarray(got[1]).ravel()[:4].tolist()}")
                 # misbehaving functions must make the call fail
                 for name in ("bad_list", "bad_shape", "bad_tuple", "bad_none", "bad_keep"):
                     if name in ("bad_shape", "bad_keep") and False: continue
